@@ -48,6 +48,7 @@ static void gen_sm_cmd(fc_ctx* c, int unwrap)
 		c->a[0] = fc_out(c, sizeof(apdu_cmd_t) + cdf);
 		c->a[4] = fc_out(c, sizeof(size_t));
 	}
+	c->n[6] = c->n[1];
 	c->variant = (int)(cdf * 10 + plain);
 }
 static void gen_SMCmdWrap(fc_ctx* c) { gen_sm_cmd(c, 0); }
@@ -105,6 +106,8 @@ static int bad_SMCmdUnwrap(fc_ctx* c, int j, err_t* exp)
 {
 	octet* apdu = (octet*)c->a[5];
 	exp[0] = ERR_BAD_APDU;
+	if (c->n[1] != c->n[6])
+		return 0; /* already shortened by another variant */
 	switch (j)
 	{
 	case 0: apdu[0] ^= 0x04; return 1;                       /* protected <-> unprotected class for this state */
@@ -112,15 +115,31 @@ static int bad_SMCmdUnwrap(fc_ctx* c, int j, err_t* exp)
 		if (c->n[3])
 			return FC_SOFT(exp);
 		btokSMCtrInc(c->a[3]); exp[0] = ERR_BAD_LOGIC; return 1;
-	case 2: c->n[1] = 3; return 1;                           /* shorter than a header */
+	case 2: if (c->n[1] < 3) return FC_SOFT(exp); c->n[1] = 3, c->a[5] = fc_cut(c, apdu, 3); return 1;   /* shorter than a header */
 	case 3:
 		if (c->n[3])
 			return FC_SOFT(exp);
 		apdu[c->n[1] - 1] ^= 1; exp[0] = FC_ANYERR; return 1;  /* MAC */
 	case 4:
-		if (c->n[1] < 6)
+	{
+		/* truncated by 1 or 2 octets (the trailing Le* field missing or cut short), in a buffer of
+		   exactly the shorter length */
+		size_t cut = 1 + fc_below(c, 2);
+		if (c->n[1] < 6 + cut)
 			return FC_SOFT(exp);
-		c->n[1] -= 1; exp[0] = FC_ANYERR; return 1;           /* truncated */
+		c->n[1] -= cut, c->a[5] = fc_cut(c, apdu, c->n[1]);
+		exp[0] = FC_ANYERR;
+		return 1;
+	}
+	case 5:
+	{
+		/* any shorter prefix, exact size */
+		if (c->n[1] < 2)
+			return FC_SOFT(exp);
+		c->n[1] = fc_below(c, (uint32_t)c->n[1]), c->a[5] = fc_cut(c, apdu, c->n[1]);
+		exp[0] = FC_ANYERR;
+		return 1;
+	}
 	}
 	return 0;
 }
@@ -164,6 +183,7 @@ static void gen_sm_resp(fc_ctx* c, int unwrap)
 		c->a[0] = fc_out(c, sizeof(apdu_resp_t) + rdf);
 		c->a[4] = fc_out(c, sizeof(size_t));
 	}
+	c->n[6] = c->n[1];
 	c->variant = (int)(rdf * 10 + plain);
 }
 static void gen_SMRespWrap(fc_ctx* c) { gen_sm_resp(c, 0); }
@@ -213,13 +233,15 @@ static int bad_SMRespUnwrap(fc_ctx* c, int j, err_t* exp)
 {
 	octet* apdu = (octet*)c->a[5];
 	exp[0] = FC_ANYERR;
+	if (c->n[1] != c->n[6])
+		return 0; /* already shortened by another variant */
 	switch (j)
 	{
 	case 0:
 		if (c->n[3])
 			return FC_SOFT(exp);
 		btokSMCtrInc(c->a[3]); exp[0] = ERR_BAD_LOGIC; return 1;
-	case 1: c->n[1] = 1; exp[0] = ERR_BAD_APDU; return 1;     /* shorter than the status words */
+	case 1: c->n[1] = 1, c->a[5] = fc_cut(c, apdu, 1); exp[0] = ERR_BAD_APDU; return 1;     /* shorter than the status words */
 	case 2:
 		if (c->n[3] || c->n[1] < 12)
 			return FC_SOFT(exp);
@@ -228,6 +250,20 @@ static int bad_SMRespUnwrap(fc_ctx* c, int j, err_t* exp)
 		if (c->n[3] || c->n[1] < 12)
 			return FC_SOFT(exp);
 		apdu[0] ^= 0x80; return 1;                            /* first protected octet */
+	case 4:
+	{
+		/* truncated response, exact size (always an error: the status words or the MAC object go) */
+		size_t cut = 1 + fc_below(c, 3);
+		if (c->n[1] < 2 + cut)
+			return FC_SOFT(exp);
+		c->n[1] -= cut, c->a[5] = fc_cut(c, apdu, c->n[1]);
+		return 1;
+	}
+	case 5:
+		if (c->n[1] < 3)
+			return FC_SOFT(exp);
+		c->n[1] = 2 + fc_below(c, (uint32_t)c->n[1] - 2), c->a[5] = fc_cut(c, apdu, c->n[1]);
+		return 1;
 	}
 	return 0;
 }
